@@ -1,6 +1,6 @@
 (* Proofs about the std.number.* bodies as translated from std.ncl into Gen/StdNumber.v.
    These are re-checked against the current source on every run. *)
-From Coq Require Import ZArith QArith Qround Qreduction Qpower Qabs List String Lia Lqa.
+From Coq Require Import ZArith QArith Qround Qreduction Qpower Qabs Qminmax List String Lia Lqa.
 From NV Require Import Arith.Num Arith.Expr Arith.NumProofs Gen.StdNumber.
 Import ListNotations.
 Open Scope Q_scope.
@@ -54,6 +54,7 @@ Ltac std_reduce :=
              std_is_integer_params std_is_integer_body std_compare_params std_compare_body
              std_pow_params std_pow_body];
   cbn -[from_sci nmod nsub nadd nmul ndiv npow nge nle nlt ngt neqb Qred];
+  cbv delta [zero_lit];
   rewrite ?from_sci_0, ?from_sci_1, ?nmod_1;
   cbn [lift bind okn okb num2 as_bool].
 
@@ -75,4 +76,154 @@ Proof.
     + rewrite inject_Z_sub1. lra.
     + rewrite inject_Z_sub1. lra.
     + rewrite inject_Z_sub1. lra.
+Qed.
+
+Theorem truncate_spec x : std1 "truncate" x = okn (Qred (inject_Z (trunc x))).
+Proof.
+  std_reduce. unfold okn, nsub. do 2 f_equal. apply Qred_complete.
+  pose proof (frac_eq x). lra.
+Qed.
+
+(* truncation rounds towards zero *)
+Theorem trunc_towards_zero x :
+  (0 <= x -> trunc x = Qfloor x) /\ (x <= 0 -> trunc x = Qceiling x).
+Proof.
+  rewrite trunc_floor_ceil. split; intros H.
+  - destruct (Z.ltb_spec (Qnum x) 0) as [L|L]; [|reflexivity]. apply Qnum_neg_iff in L. lra.
+  - destruct (Z.ltb_spec (Qnum x) 0) as [L|L]; [reflexivity|].
+    assert (E : x == 0). { destruct (Qlt_le_dec x 0) as [X|X]; [apply Qnum_neg_iff in X; lia|lra]. }
+    rewrite (Qfloor_comp _ _ E), (Qceiling_comp _ _ E). reflexivity.
+Qed.
+
+Theorem fract_spec x : std1 "fract" x = okn (Qred (x - inject_Z (trunc x))).
+Proof.
+  std_reduce. unfold okn. do 2 f_equal. unfold frac. apply Qred_complete.
+  rewrite <- (frac_eq x). unfold frac. rewrite Qred_correct. reflexivity.
+Qed.
+
+(* x = truncate x + fract x, |fract x| < 1, and fract x has the sign of x *)
+Theorem truncate_fract x : exists t f,
+  std1 "truncate" x = okn t /\ std1 "fract" x = okn f /\ x == t + f /\ Qabs f < 1
+  /\ (0 <= x -> 0 <= f) /\ (x <= 0 -> f <= 0).
+Proof.
+  exists (Qred (inject_Z (trunc x))), (Qred (x - inject_Z (trunc x))).
+  split; [apply truncate_spec|]. split; [apply fract_spec|]. rewrite !Qred_correct.
+  pose proof (trunc_frac x) as [F1 F2]. cbv zeta in F1, F2.
+  split; [ring|]. split; [|split; intros H; [destruct (F1 H)|destruct (F2 H)]; lra].
+  apply Qabs_Qlt_condition. destruct (Qlt_le_dec x 0) as [L|L]; [destruct (F2 (Qlt_le_weak _ _ L))|destruct (F1 L)]; lra.
+Qed.
+
+Lemma nlt_true a b : nlt a b = true <-> a < b. Proof. apply nlt_iff. Qed.
+
+Theorem abs_spec x : std1 "abs" x = okn (Qred (Qabs x)) \/ (0 <= x /\ std1 "abs" x = okn x).
+Proof.
+  std_reduce. destruct (nlt x 0) eqn:L; cbn [bind].
+  - left. apply nlt_iff in L. unfold okn, nsub. do 2 f_equal. apply Qred_complete.
+    rewrite Qabs_neg by lra. ring.
+  - right. split; [|reflexivity]. destruct (Qlt_le_dec x 0) as [X|X]; [|exact X].
+    apply nlt_iff in X. congruence.
+Qed.
+
+Theorem abs_value x : exists y, std1 "abs" x = okn y /\ y == Qabs x.
+Proof.
+  destruct (abs_spec x) as [H|[P H]].
+  - exists (Qred (Qabs x)). split; [exact H|apply Qred_correct].
+  - exists x. split; [exact H|]. rewrite Qabs_pos by exact P. reflexivity.
+Qed.
+
+Theorem min_spec x y : std2 "min" x y = okn (if nle x y then x else y).
+Proof. std_reduce. destruct (nle x y); reflexivity. Qed.
+
+Theorem max_spec x y : std2 "max" x y = okn (if nge x y then x else y).
+Proof. std_reduce. destruct (nge x y); reflexivity. Qed.
+
+Definition mn (x y : Q) : Q := if nle x y then x else y.
+Definition mx (x y : Q) : Q := if nge x y then x else y.
+
+Lemma mn_Qmin x y : mn x y == Qmin x y.
+Proof.
+  unfold mn. destruct (nle x y) eqn:L.
+  - apply nle_iff in L. symmetry. apply Q.min_l. exact L.
+  - assert (y < x). { destruct (Qlt_le_dec y x) as [X|X]; [exact X|]. apply nle_iff in X. congruence. }
+    symmetry. apply Q.min_r. lra.
+Qed.
+Lemma mx_Qmax x y : mx x y == Qmax x y.
+Proof.
+  unfold mx. destruct (nge x y) eqn:L.
+  - apply nge_iff in L. symmetry. apply Q.max_l. exact L.
+  - assert (x < y). { destruct (Qlt_le_dec x y) as [X|X]; [exact X|]. apply nge_iff in X. congruence. }
+    symmetry. apply Q.max_r. lra.
+Qed.
+
+(* lattice laws of the generated min / max (up to ==: the functions return one of their operands
+   unchanged) *)
+Theorem minmax_lattice x y z :
+  mn x y == mn y x /\ mx x y == mx y x
+  /\ mn (mn x y) z == mn x (mn y z) /\ mx (mx x y) z == mx x (mx y z)
+  /\ mn x x == x /\ mx x x == x
+  /\ mn x (mx x y) == x /\ mx x (mn x y) == x
+  /\ mn x y <= x /\ mn x y <= y /\ x <= mx x y /\ y <= mx x y
+  /\ (z <= x -> z <= y -> z <= mn x y) /\ (x <= z -> y <= z -> mx x y <= z)
+  /\ (mn x y = x \/ mn x y = y) /\ (mx x y = x \/ mx x y = y).
+Proof.
+  assert (P1 : forall a b a' b', a == a' -> b == b' -> mn a b == mn a' b').
+  { intros. rewrite !mn_Qmin. apply Q.min_compat; assumption. }
+  assert (P2 : forall a b a' b', a == a' -> b == b' -> mx a b == mx a' b').
+  { intros. rewrite !mx_Qmax. apply Q.max_compat; assumption. }
+  repeat split.
+  - rewrite !mn_Qmin. apply Q.min_comm.
+  - rewrite !mx_Qmax. apply Q.max_comm.
+  - rewrite (P1 (mn x y) z (Qmin x y) z (mn_Qmin x y) (Qeq_refl z)), (P1 x (mn y z) x (Qmin y z) (Qeq_refl x) (mn_Qmin y z)).
+    rewrite !mn_Qmin. symmetry. apply Q.min_assoc.
+  - rewrite (P2 (mx x y) z (Qmax x y) z (mx_Qmax x y) (Qeq_refl z)), (P2 x (mx y z) x (Qmax y z) (Qeq_refl x) (mx_Qmax y z)).
+    rewrite !mx_Qmax. symmetry. apply Q.max_assoc.
+  - rewrite mn_Qmin. apply Q.min_id.
+  - rewrite mx_Qmax. apply Q.max_id.
+  - rewrite (P1 x (mx x y) x (Qmax x y) (Qeq_refl x) (mx_Qmax x y)), mn_Qmin. apply Q.max_min_absorption.
+  - rewrite (P2 x (mn x y) x (Qmin x y) (Qeq_refl x) (mn_Qmin x y)), mx_Qmax. apply Q.min_max_absorption.
+  - rewrite mn_Qmin. apply Q.le_min_l.
+  - rewrite mn_Qmin. apply Q.le_min_r.
+  - rewrite mx_Qmax. apply Q.le_max_l.
+  - rewrite mx_Qmax. apply Q.le_max_r.
+  - intros. rewrite mn_Qmin. apply Q.min_glb; assumption.
+  - intros. rewrite mx_Qmax. apply Q.max_lub; assumption.
+  - unfold mn. destruct (nle x y); auto.
+  - unfold mx. destruct (nge x y); auto.
+Qed.
+
+Theorem is_integer_spec x : std1 "is_integer" x = okb (Pos.eqb (Qden (Qred x)) 1).
+Proof.
+  std_reduce. cbn [val_eqb]. unfold okb. do 2 f_equal.
+  apply Bool.eq_true_iff_eq. change (match Qden (Qred x) with 1%positive => true | _ => false end) with (Pos.eqb (Qden (Qred x)) 1). rewrite neqb_iff, Pos.eqb_eq, frac_eq. split.
+  - intros H. assert (E : x == inject_Z (trunc x)) by lra.
+    apply Qred_complete in E. rewrite Qred_inject_Z in E. rewrite E. reflexivity.
+  - intros D. assert (E : x == inject_Z (Qnum (Qred x))).
+    { rewrite <- (Qred_correct x) at 1. destruct (Qred x) as [n d]. cbn in *. subst d. reflexivity. }
+    rewrite (trunc_proper _ _ E). unfold trunc, inject_Z. cbn [Qnum Qden]. rewrite Z.quot_1_r. fold (inject_Z (Qnum (Qred x))). lra.
+Qed.
+
+Theorem compare_spec x y :
+  std2 "compare" x y = Ok (VEnum (match (x ?= y)%Q with Lt => "Lesser" | Eq => "Equal" | Gt => "Greater" end)).
+Proof.
+  std_reduce. unfold nlt, ngt. destruct (x ?= y); reflexivity.
+Qed.
+
+Theorem pow_spec x n : std2 "pow" x n = lift (npow x n).
+Proof. std_reduce. reflexivity. Qed.
+
+(* a non-number argument is blamed, whatever the function *)
+Theorem std_blames_non_numbers f ps body v :
+  lookup f std_number_table = Some (ps, body) -> ps = ["x"%string] ->
+  (forall q, v <> VNum q) ->
+  call_std std_number_table f [Ok v] = eval no_call [("x"%string, Err Blame)] body.
+Proof.
+  intros L -> N. unfold call_std. rewrite L. cbn [List.length Nat.eqb map combine].
+  destruct v; cbn [guard_num]; try reflexivity. exfalso. apply (N q). reflexivity.
+Qed.
+
+(* floor, characterised without reference to Qfloor *)
+Theorem floor_char x : exists z, std1 "floor" x = okn (inject_Z z) /\ inject_Z z <= x /\ x < inject_Z z + 1.
+Proof.
+  exists (Qfloor x). rewrite floor_spec, Qred_inject_Z. split; [reflexivity|]. split; [apply Qfloor_le|].
+  pose proof (Qlt_floor x) as L. rewrite inject_Z_plus in L. exact L.
 Qed.
